@@ -119,6 +119,9 @@ def plan(ctx):
         add(L.make_shape("Dn", [2, 1, 2], directives={1: "none"}), modes=("file",), tag="directive")
         add(L.make_shape("DfL", [2, 2, 1], directives={2: "file"}), modes=("none",), tag="directive")
         add(L.make_shape("DfM", [2, 1, 2], directives={1: "file"}), modes=("none",), tag="directive")
+        # the txmode directive inside a header that also holds ordinary comment lines (before and after it)
+        add(L.make_shape("DfMc", [2, 3, 1], directives={1: "file"}, headers={1: (1, 1)}), modes=("none",), tag="directive")
+        add(L.make_shape("Dnc", [2, 3], directives={1: "none"}, headers={1: (2, 0)}), modes=("file",), tag="directive")
         add(a, modes=("file",), params="_journal_mode=WAL", tag="wal")
         return cfgs
     add(hs, modes=("none",), tag="hash-prefix")
@@ -151,6 +154,12 @@ def plan(ctx):
     add(L.make_shape("DfL", [2, 2, 2], directives={2: "file"}), modes=("none",), tag="directive", strace=True)
     add(L.make_shape("DfM", [2, 2, 2], directives={1: "file"}), modes=("none",), tag="directive")
     add(L.make_shape("Dsame", [2, 2], directives={0: "file", 1: "file"}), modes=("file",), tag="directive")
+    for hb, ha in ((1, 0), (2, 0), (1, 1), (2, 1)):
+        add(L.make_shape("DfMc", [2, 3, 1], directives={1: "file"}, headers={1: (hb, ha)}), modes=("none",), tag="directive")
+        add(L.make_shape("Dnc", [2, 3, 1], directives={1: "none"}, headers={1: (hb, ha)}), modes=("file",), tag="directive")
+    add(L.make_shape("Dc0", [3, 2], directives={0: "file"}, headers={0: (0, 2)}), modes=("none",), tag="directive")
+    add(L.make_shape("Kc", [2, 3, 1], kinds=["DI", "DII", "I"], checkpoints=[1], directives={1: "none"}, headers={1: (1, 1)}),
+        modes=("file",), tag="checkpoint")
     # an already partially applied start state: a none-mode run killed right after a revision write
     p = L.make_shape("P", [2, 3], kinds=["DI", "IDI"])
     add(p)
